@@ -564,7 +564,7 @@ def P25(m, R):
 
 
 # ----------------------------------------------------------------------------------------------------------------------
-@rule('P26', 'index-provenance: an index obtained by searching list X is used only on X, a copy of X, or a list built parallel to X', floor=4)
+@rule('P26', 'index-provenance: an index obtained by searching list X is used only on X, a copy of X, or a list built parallel to X', floor=2)
 def P26(m, R):
     ro = m.roles
     n_sites = 0
@@ -849,3 +849,55 @@ def P12(m, R):
     ok = len(early) == 1 and any(isinstance(p, ast.If) and norm(p.test) in ('not %s.%s' % (new_s, ro.TEXT), 'len(%s.%s) == 0' % (new_s, ro.TEXT)) for p in _parents(early[0]))
     R.check(ok and isinstance(f.body[-1], ast.Return), f, early[0] if early else f.node, 'only an empty slice returns before the closing block',
             '%d early returns' % len(early), construct='slice early return')
+
+
+# ----------------------------------------------------------------------------------------------------------------------
+@rule('P27', 'seam-retarget-consumes: when __iadd__ re-targets a stop marker of the appended string to the receiver\'s merged marker, that '
+             '(find, replace) pair is consumed, so a later stop marker of a re-started setting is left alone', floor=1)
+def P27(m, R):
+    ro = m.roles
+    f = m.fn('AnsiString.__iadd__')
+    retargets = []
+    for n in f.walk():
+        if isinstance(n, ast.Assign) and isinstance(n.targets[0], ast.Subscript) and norm(n.targets[0].value).endswith('.' + ro.STOP) and \
+                isinstance(n.value, ast.Subscript) and isinstance(n.value.value, ast.Name):
+            retargets.append(n)
+    cons = 'seam re-targeting'
+    if not retargets:
+        R.viol(f, f.node, 'stop markers of the appended string that refer to a merged start marker are never re-targeted to the receiver\'s marker: '
+                          'the iterator cannot stop the setting (it stays on to the end)', construct=cons)
+        return
+    for rt in retargets:
+        repl = rt.value.value.id
+        k = norm(rt.value.slice)
+        lp = next((p for p in _parents(rt) if isinstance(p, ast.For)), None)
+        # the find list: the first argument of the search whose result the loop walks
+        find_list = None
+        if lp is not None:
+            inner = lp.iter.args[0] if (call_name(lp.iter) == 'reversed' and lp.iter.args) else lp.iter
+            src = inner
+            if isinstance(inner, ast.Name):
+                for a in f.walk():
+                    if isinstance(a, ast.Assign) and norm(a.targets[0]) == inner.id and call_name(a.value) == ro.IDFINDN:
+                        src = a.value
+            if call_name(src) == ro.IDFINDN:
+                find_list = norm(src.args[0])
+        blk = rt._parent
+        later = []
+        for fld in ('body', 'orelse'):
+            L = getattr(blk, fld, None)
+            if isinstance(L, list) and rt in L:
+                later = L[L.index(rt) + 1:]
+        dels = {norm(t.value) for s_ in later if isinstance(s_, ast.Delete) for t in s_.targets if isinstance(t, ast.Subscript) and norm(t.slice) == k}
+        problems = []
+        if find_list is None:
+            R.undecided(f, rt, 're-target loop not recognised', construct=cons)
+            continue
+        if repl not in dels:
+            problems.append('entry %s of %s is not removed after use' % (k, repl))
+        if find_list not in dels:
+            problems.append('entry %s of %s is not removed after use: a later stop marker of the same setting object (the setting was interrupted '
+                            'and re-started inside the appended string) is re-targeted too and can never be stopped' % (k, find_list))
+        if lp is not None and dels and not (call_name(lp.iter) == 'reversed'):
+            problems.append('entries are deleted while walking the matches in ascending order')
+        R.check(not problems, f, rt, 'each merged pair is consumed by its first (only) stop marker', '; '.join(problems), construct=cons)
